@@ -18,9 +18,10 @@ Arguments IRes {L} r.
 Arguments IGen {L} r.
 Arguments ISub {L} l.
 
-(* one kustomization: namespace / namePrefix / nameSuffix directives and what it accumulates *)
+(* one kustomization: namespace / namePrefix / nameSuffix directives, the target selections of its `patches:`
+   entries (one list of flags per entry, over the accumulated resources in order) and what it accumulates *)
 Inductive layer : Type :=
-| Layer (ns pfx sfx : string) (items : list (item layer)).
+| Layer (ns pfx sfx : string) (touches : list (list bool)) (items : list (item layer)).
 
 Section Rename.
   Variable cs : string -> string -> bool.          (* openapi.IsCertainlyClusterScoped *)
@@ -169,10 +170,22 @@ Section Rename.
     do free <- no_any_id_match (cur_id cs r) m;
     if free then append_one m r else Err.
 
-  (* KustTarget.accumulateTarget *)
+  (* PatchTransformerPlugin.Transform (transformJson6902 / transformStrategicMerge): every selected target gets
+     StorePreviousId before the patch is applied, i.e. its current id is recorded once more.  Only this
+     bookkeeping is modelled: the patches of the generated builds rewrite metadata/annotations, which no
+     renaming transformer reads.  [sel] flags the selected resources. *)
+  Fixpoint touch_sel (sel : list bool) (m : list resource) : list resource :=
+    match m, sel with
+    | r :: t, b :: sel' => (if b then store_previous_id cs r else r) :: touch_sel sel' t
+    | _, _ => m
+    end.
+  Definition touch_all (touches : list (list bool)) (m : list resource) : list resource :=
+    fold_left (fun m sel => touch_sel sel m) touches m.
+
+  (* KustTarget.accumulateTarget; the builtin transformers run in the order patches, namespace, prefix, suffix *)
   Fixpoint accumulate (l : layer) : res (list resource) :=
     match l with
-    | Layer ns pfx sfx items =>
+    | Layer ns pfx sfx touches items =>
         do m <- (fix go (its : list (item layer)) (m : list resource) : res (list resource) :=
                    match its with
                    | [] => Ok m
@@ -180,7 +193,7 @@ Section Rename.
                    | IGen r :: t => do m' <- absorb_create m r; go t m'
                    | ISub sub :: t => do s <- accumulate sub; do m' <- append_all m s; go t m'
                    end) items [];
-        do m1 <- namespace_transform ns m;
+        do m1 <- namespace_transform ns (touch_all touches m);
         do m2 <- prefix_transform pfx m1;
         suffix_transform sfx m2
     end.
